@@ -189,11 +189,32 @@ fn main() {
     let corpus = worlds::corpus_cases();
     let corpus_total = corpus.len();
     let corpus_step = run.pick(3, 1);
-    cases.extend(corpus.into_iter().enumerate().filter(|(i, _)| i % corpus_step == 0).map(|(_, c)| c));
+    // corpus entries outside the quick subset belong to level 2 (see `level_of`)
+    let mut level2: BTreeSet<String> = BTreeSet::new();
+    for (i, c) in corpus.into_iter().enumerate() {
+        if i % corpus_step == 0 {
+            if i % 3 != 0 {
+                level2.insert(c.id.clone());
+            }
+            cases.push(c);
+        }
+    }
     let n_corpus = cases.len() - n_enumerated;
+    // Thorough runs in levels of growing bound and reports the deepest completed one:
+    //   1 = the quick world set with all configurations, 2 = + the rest of the corpus,
+    //   3 = + one world per (name, naming position).
+    let level_of = |c: &Case| -> usize {
+        if c.family == "names" && !c.id.ends_with(":all") && thorough {
+            3
+        } else if level2.contains(&c.id) {
+            2
+        } else {
+            1
+        }
+    };
 
     // eligibility (declared exclusions as WIT features) and configuration list per world
-    let mut work: Vec<(usize, CConfig)> = Vec::new();
+    let mut work: Vec<(usize, CConfig, usize)> = Vec::new();
     let mut excluded: BTreeMap<String, Vec<String>> = BTreeMap::new();
     let mut rejected: Vec<Value> = Vec::new();
     let mut async_skipped_nested = 0usize;
@@ -224,7 +245,7 @@ fn main() {
                         async_skipped_nested += 1;
                         continue;
                     }
-                    work.push((i, cfg.clone()));
+                    work.push((i, cfg.clone(), level_of(case)));
                 }
             }
         }
@@ -236,10 +257,30 @@ fn main() {
 
     // ---- run --------------------------------------------------------------------------------
     let workers = vcommon::ncpu().min(16);
-    let results = vcommon::par_map(work.len(), workers, |k| {
-        let (i, cfg) = &work[k];
-        evaluate(&tc, &cases[*i], cfg, &scratch.path.join(format!("w{k}")))
-    });
+    let budget_s: f64 = std::env::var("VERIF_BUDGET_S").ok().and_then(|s| s.parse().ok()).unwrap_or(1200.0);
+    let mut results: Vec<Value> = Vec::new();
+    let mut done: Vec<(usize, CConfig)> = Vec::new();
+    let mut levels_completed: Vec<Value> = Vec::new();
+    let mut levels_skipped: Vec<Value> = Vec::new();
+    for level in 1..=3usize {
+        let items: Vec<(usize, CConfig)> = work.iter().filter(|w| w.2 == level).map(|w| (w.0, w.1.clone())).collect();
+        if items.is_empty() {
+            continue;
+        }
+        // a deeper level is only started while less than 40% of the time budget is used
+        if level > 1 && run.elapsed() > 0.4 * budget_s {
+            levels_skipped.push(json!({"level": level, "evaluations": items.len(), "reason": format!("{:.0}s of the {budget_s:.0}s budget used after the previous level", run.elapsed())}));
+            continue;
+        }
+        let r = vcommon::par_map(items.len(), workers, |k| {
+            let (i, cfg) = &items[k];
+            evaluate(&tc, &cases[*i], cfg, &scratch.path.join(format!("l{level}w{k}")))
+        });
+        levels_completed.push(json!({"level": level, "evaluations": items.len(), "elapsed_s": run.elapsed()}));
+        results.extend(r);
+        done.extend(items);
+    }
+    let work = done;
 
     // ---- judge ------------------------------------------------------------------------------
     let mut ok = 0usize;
@@ -336,13 +377,17 @@ fn main() {
     }
 
     let evaluations = results.len();
-    let exhaustive = std::env::var_os("VERIF_LIMIT").is_none();
+    let exhaustive = std::env::var_os("VERIF_LIMIT").is_none() && levels_skipped.is_empty();
     let coverage = json!({
         "evaluations": evaluations,
         "distinct_nontrivial": nontrivial.len(),
         "rule": "distinct (world, configuration) pairs with at least one import or export for which the generator produced C that was handed to clang (whatever the verdict); `compared_worlds` counts those that went all the way through clang, wasm-ld and ComponentEncoder(validate) and whose decoded world was compared with the requested one",
         "compared_worlds": compared.len(),
         "exhaustive": exhaustive,
+        "levels": {"1": "quick world set (names in `all` position, types, resources, limits, kebab, collisions, every 3rd corpus entry)", "2": "+ rest of the corpus", "3": "+ one world per (name, naming position)"},
+        "levels_completed": levels_completed,
+        "levels_skipped_for_time": levels_skipped,
+        "time_budget_s": budget_s,
         "worlds": {"enumerated": n_enumerated, "corpus": n_corpus, "corpus_total": corpus_total, "eligible": eligible_worlds},
         "bounds": {
             "name_alphabet": worlds::C_NAMES, "positions": positions, "position_all": "every naming position except namespace/package", "leaves": worlds::LEAVES,
